@@ -244,7 +244,7 @@ def baseline_ok(wt):
     try:
         env = {k: v for k, v in os.environ.items() if k != "LCM_VERIF"}
         env["PYTHONPATH"] = os.path.join(wt, "src")
-        subprocess.run(["/venv/bin/python", "-m", "pytest", "-q", "-x", "-p", "no:cacheprovider", "--timeout=600",
+        subprocess.run(["/venv/bin/python", "-m", "pytest", "-q", "-p", "no:cacheprovider", "--timeout=600",
                         "--continue-on-collection-errors", f"--junitxml={out}/j.xml"], cwd=wt, env=env,
                        capture_output=True, timeout=1500)
         import xml.etree.ElementTree as ET
